@@ -85,3 +85,9 @@ func (n *Node) PackBlock(proposer *Key, ts int64) (*pb.InternalBlock, error) {
 func (n *Node) ConfirmForMiner(b *pb.InternalBlock) error {
 	return n.Miner(K(0)).VerifConfirmBlockForMiner(n.reqCtx(), b)
 }
+
+// TruncateForMiner is the real miner.truncateForMiner (consensus-ordered rollback: the state
+// walks to the target, then the ledger is truncated to it).
+func (n *Node) TruncateForMiner(target []byte) error {
+	return n.withRecovery(func() error { return n.Miner(K(0)).VerifTruncateForMiner(n.reqCtx(), target) })
+}
